@@ -288,15 +288,33 @@ where
             return;
         }};
     }
+    // a panic inside the table on an operation of the plain interface is a violation, not a dead worker
+    macro_rules! guard {
+        ($name:expr, $e:expr) => {
+            match catch_unwind(AssertUnwindSafe(|| $e)) {
+                Ok(v) => v,
+                Err(p) => {
+                    let msg = p.downcast_ref::<String>().cloned().or_else(|| p.downcast_ref::<&str>().map(|s| s.to_string())).unwrap_or_default();
+                    fail!(&format!("l2-panic:{}", $name), format!("{} panicked: {}", $name, msg))
+                }
+            }
+        };
+    }
     for _ in 0..steps {
         let t = db.as_mut().unwrap();
         match rng.weighted(&[30, 10, 12, 8, 4, 3, 5, 14, 10, 4]) {
             0 => {
                 let k = rng.pick(&keys).clone();
                 uniq += 1;
-                let val = if rng.chance(1, 5) { mkval(7) } else { mkval(1000 + uniq) };
+                let val = match rng.below(5) {
+                    0 => mkval(7),
+                    1 => mkval(8),
+                    // the value the key had some versions ago (A, B, A)
+                    2 => mkval(7 + (uniq % 2)),
+                    _ => mkval(1000 + uniq),
+                };
                 trace.push(format!("set {:?} = {:?} @{}", k, val, m.cur));
-                if t.set(m.cur, &k, val.clone()).is_err() {
+                if guard!("set", t.set(m.cur, &k, val.clone())).is_err() {
                     fail!("l2-set-error", "set returned an error".to_string());
                 }
                 m.working.entry(k.encode_vec()).or_default().push((m.cur, Some(val.encode_vec())));
@@ -304,7 +322,7 @@ where
             1 => {
                 let k = rng.pick(&keys).clone();
                 trace.push(format!("unset {:?} @{}", k, m.cur));
-                if t.unset(m.cur, &k).is_err() {
+                if guard!("unset", t.unset(m.cur, &k)).is_err() {
                     fail!("l2-unset-error", "unset returned an error".to_string());
                 }
                 m.working.entry(k.encode_vec()).or_default().push((m.cur, None));
@@ -320,7 +338,7 @@ where
                 trace.push(format!("commit({})", m.cur + 1));
                 // which cached keys get their history row purged (model of the documented rule:
                 // a history whose newest entry is more than 10 blocks below the next block is useless)
-                if t.commit(m.cur + 1).is_err() {
+                if guard!("commit", t.commit(m.cur + 1)).is_err() {
                     fail!("l2-commit-error", "commit returned an error".to_string());
                 }
                 for (k, h) in m.working.iter() {
@@ -380,7 +398,7 @@ where
             }
             7 => {
                 let k = rng.pick(&keys).clone();
-                let got = match t.latest(&k) {
+                let got = match guard!("latest", t.latest(&k)) {
                     Ok(g) => g.map(|v| v.encode_vec()),
                     Err(e) => fail!("l2-latest-error", format!("latest returned an error: {}", e)),
                 };
@@ -398,7 +416,7 @@ where
                     std::mem::swap(&mut a, &mut b);
                 }
                 let (ea, eb) = (a.encode_vec(), b.encode_vec());
-                let got = match t.get_range(&a, &b) {
+                let got = match guard!("get_range", t.get_range(&a, &b)) {
                     Ok(g) => g,
                     Err(e) => fail!("l2-range-error", format!("get_range returned an error: {}", e)),
                 };
@@ -417,7 +435,7 @@ where
                 }
             }
             _ => {
-                let got = match t.all() {
+                let got = match guard!("all", t.all()) {
                     Ok(g) => g,
                     Err(e) => fail!("l2-all-error", format!("all returned an error: {}", e)),
                 };
